@@ -315,32 +315,47 @@ def run(ctx):
         ro = facts.fn(W + "::Worker::run_one")
         ebr = ExprBuilder(ro)
         gw = ro.calls_to(W + "::Worker::generate_work")
-        md = cond_switches(ro, lambda e: is_call(e, "core::option::Option::map_or") and mentions_field(e, W + "::Worker", "max_depth"), ebr)
-        if gw and md and not guarded(ro, [gw[0].bb], md, False):
-            d_ = ebr.operand(gw[0].args[2])
-            okd = any(x.k == "bin" and x[1] in ("Add", "AddWithOverflow") and any(y.k == "const" and y[1] == 1 for y in (x[2], x[3]))
-                      and mentions_call(x, W + "::DirEntry::depth") for x in walk(d_))
-            clo = [facts.fns.get(x[1]) for x in walk(md[0][3]) if x.k == "closure"]
-            ge = any(g_ is not None and any(st["k"] == "assign" and st["rv"]["k"] == "bin" and st["rv"]["op"] == "Ge" for bb, j, st in g_.stmts())
-                     for g_ in clo)
-            if okd and ge:
-                r.ok("max_depth", "children are generated at depth + 1 and only while depth < max_depth (depth >= max ⇒ Skip)", fn=ro)
-            else:
-                r.bad("max_depth", "the parallel walker's depth limit is no longer `depth >= max ⇒ do not descend` with children at depth + 1",
-                      fn=ro, construct="max_depth")
-        else:
-            r.bad("max_depth", "the parallel walker descends without consulting max_depth", fn=ro, construct="max_depth")
-        # ... and a directory at the depth limit is not *read* as far as the visitor can tell: the serial walker (walkdir)
-        # never opens it, so the failure of read_dir must not be reported for it either (diagnostic and exit status)
+        # value table: max_depth ∈ {None, Some(3)}, the entry's depth ∈ {2, 3, 4}; the outcome is whether generate_work (the
+        # descent) and the report of a read_dir failure are still executable. However the limit is spelled — map_or with a
+        # closure, a match, a helper method — a directory at or beyond the limit is neither read nor descended.
+        from ..flow import table
         rd = ro.calls_to(W + "::Work::read_dir")
         errv = [c for c in ro.calls() if (c.func.get("trait") or "").endswith("ParallelVisitor") and c.func.get("name") == "visit" and
                 rd and mentions_call(ebr.operand(c.args[1]), W + "::Work::read_dir")]
-        if md and errv and not guarded(ro, [c.bb for c in errv], md, False):
-            r.ok("max_depth|read-error", "the error of read_dir is reported only below the depth limit", fn=ro)
-        elif errv:
+        wrong_desc, wrong_err = [], []
+        if gw:
+            for row, sx in table(facts, ro, fields={(W + "::Worker", "max_depth"): [V("None", None), V("Some", I(3))]},
+                                 calls={W + "::DirEntry::depth": [I(2), I(3), I(4)]}):
+                mx = row[("field", (W + "::Worker", "max_depth"))]
+                d_ = row[("call", W + "::DirEntry::depth")][1]
+                below = mx[1] == "None" or d_ < 3
+                if (gw[0].bb in sx.exec_blocks) != below:
+                    wrong_desc.append("max_depth=%s depth=%d: children %sgenerated" % ("None" if mx[1] == "None" else 3, d_,
+                                                                                       "" if gw[0].bb in sx.exec_blocks else "not "))
+                if errv and not below and any(c.bb in sx.exec_blocks for c in errv):
+                    wrong_err.append("max_depth=3 depth=%d" % d_)
+            d_e = ebr.operand(gw[0].args[2])
+            okd = any(x.k == "bin" and x[1] in ("Add", "AddWithOverflow") and any(y.k == "const" and y[1] == 1 for y in (x[2], x[3]))
+                      and mentions_call(x, W + "::DirEntry::depth") for x in walk(d_e))
+            if not wrong_desc and okd:
+                r.ok("max_depth", "children are generated at depth + 1 and only while depth < max_depth (6 rows)", fn=ro)
+            elif wrong_desc and all("not generated" not in w_ for w_ in wrong_desc) and \
+                    not any(x.k == "field" and x[3] == "max_depth" for bb_, j_, st_ in ro.stmts() if st_["k"] == "assign"
+                            for x in walk(ebr.rvalue(st_["rv"]))):
+                r.bad("max_depth", "the parallel walker descends without consulting max_depth", fn=ro, construct="max_depth")
+            else:
+                r.bad("max_depth", "the parallel walker's depth limit is no longer `depth >= max ⇒ do not descend` with children at depth + 1"
+                      " (%s)" % (wrong_desc[0] if wrong_desc else "children not at depth + 1"), fn=ro, construct="max_depth")
+        else:
+            r.bad("max_depth", "anchor-missing: run_one no longer calls generate_work", fn=ro, construct="max_depth")
+        # ... and a directory at the depth limit is not *read* as far as the visitor can tell: the serial walker (walkdir)
+        # never opens it, so the failure of read_dir must not be reported for it either (diagnostic and exit status)
+        if errv and wrong_err:
             r.bad("max_depth|read-error", "Worker::run_one reports the failure of read_dir before it consults max_depth: for an unreadable "
                   "directory exactly at the depth limit the parallel walker prints a diagnostic (exit status 2) and the serial "
                   "walker, which never opens it, does not", fn=ro, loc=errv[0].loc, construct="max_depth")
+        elif errv:
+            r.ok("max_depth|read-error", "the error of read_dir is reported only below the depth limit", fn=ro)
         else:
             r.ok("max_depth|read-error", "read_dir failures are not reported by run_one", fn=ro, nontrivial=False)
         gwf = facts.fn(W + "::Worker::generate_work")
@@ -367,7 +382,7 @@ def run(ctx):
         if sfs:
             s_e = seed_after_call(ro, sfs[0], V("Err", None))
             ok_visits = [c for c in ro.calls() if (c.func.get("trait") or "").endswith("ParallelVisitor") and c.func.get("name") == "visit" and
-                         any(x.k == "agg" and x[2] == "Ok" for x in walk(ebr.operand(c.args[1])))]
+                         (lambda e_: e_.k == "agg" and e_[2] == "Ok")(strip(ebr.operand(c.args[1])))]
             late = [c for c in ok_visits if c.bb in s_e.exec_blocks]
             if late:
                 r.bad("same_fs|error", "when is_same_file_system fails, Worker::run_one reports the error and then the entry as well; "
@@ -633,9 +648,11 @@ def loop_identity_rule(ctx, r):
     hs = f.calls_to(HF)
     child = [c for c in hs if any(x.k == "arg" and x[2] == "child_path" for x in walk(eb.operand(c.args[0])))]
     anc = [c for c in hs if mentions_call(eb.operand(c.args[0]), "ignore::dir::Ignore::path")]
-    eqs = cond_switches(f, lambda e: is_call(e, "core::cmp::PartialEq::eq") and
-                        any("Handle" in f.local_ty(y[1]) for y in walk(e) if y.k in ("phi", "local")) or
-                        (is_call(e, "core::cmp::PartialEq::eq") and mentions_call(e, HF)), eb)
+    def _cmp(e):
+        return is_call(e, "core::cmp::PartialEq::eq", "core::cmp::PartialEq::ne") and (
+            any("Handle" in f.local_ty(y[1]) for y in walk(e) if y.k in ("phi", "local")) or mentions_call(e, HF))
+    # normalised to "the handles are equal" polarity (== and != spell the same test)
+    eqs = [(bb, (fe if e[1].endswith("::ne") else te), (te if e[1].endswith("::ne") else fe), e) for bb, te, fe, e in cond_switches(f, _cmp, eb)]
     if child and anc and eqs:
         inloop = anc[0].bb in C.reach_after(f, anc[0].bb)
         errs = [bb for bb, j, st in f.stmts() if st["k"] == "assign" and st["rv"]["k"] == "agg" and st["rv"].get("variant") == "Loop"]
